@@ -120,7 +120,11 @@ def gen(rng, tier):
             "refuse_fault": None, "do_a": rng.random() < 0.6, "gc_at": rng.randrange(14),
             "old_state": rng.choice(["as_imported", "as_imported", "as_imported", "emptied", "partly_deleted"]),
             "race": rng.random() < 0.2, "race_seed": rng.getrandbits(32), "live_generator": rng.random() < 0.6,
-            "wal_old": rng.random() < 0.15, "prior_import": rng.random() < 0.6}
+            "wal_old": rng.random() < 0.15, "prior_import": rng.random() < 0.6, "wal_force_first": rng.random() < 0.5,
+            # how the old database was made and how the reading session opens it
+            "dialect_given": rng.choice([None, None, None, True, "no_order"]),
+            "open_kw": rng.choice([{}, {}, {"keep_order": True}, {"sort_attribute_values": True},
+                                   {"keep_order": True, "sort_attribute_values": True}])}
     r = rng.random()
     if r < 0.3:
         case["refuse_fault"] = {"frac": rng.random(), "mode": rng.choice(["error", "crash", "cancel"])}
@@ -221,8 +225,11 @@ def run(case):
             return r
 
         n = w.node()
-        r = call(n, {"op": "create", "h": "h", "db": "a.db", "data": _src(case["db"], "path"),
-                     "kw": {"merge_strategy": "create_unique"}})
+        creq = {"op": "create", "h": "h", "db": "a.db", "data": _src(case["db"], "path"), "kw": {"merge_strategy": "create_unique"}}
+        if case.get("dialect_given"):
+            creq["explicit_dialect"] = case["dialect_given"]  # dialect= stated by the caller (possibly a hand-written, partial one)
+            probes["old_database_made_with_explicit_dialect"] = 1
+        r = call(n, creq)
         if not r["ok"]:
             out["discarded"] = True
             out["stats"] = w.stats
@@ -244,7 +251,7 @@ def run(case):
 
         # ------------------------------------------------------------------ (b) reads
         n = w.node()
-        r = call(n, {"op": "open", "h": "h", "db": "a.db"})
+        r = call(n, {"op": "open", "h": "h", "db": "a.db", "kw": dict(case.get("open_kw") or {})})
         if not r["ok"]:
             V.append(viol("C19.reads", "cannot open the database: %s %s" % (r["exc"], r["msg"]), kind="open_failed"))
         else:
@@ -317,6 +324,7 @@ def run(case):
                               kind="unreadable"))
 
         # ------------------------------------------------------------------ (a) force
+        holder = None
         if case.get("do_a") and not V and case.get("wal_old"):
             # the existing database was switched to WAL journalling (documented option for writing while reading), written
             # to, and its process was killed: a.db-wal / a.db-shm are left next to it
@@ -327,7 +335,12 @@ def run(case):
                      'chrW\twal\tgene\t1\t9\t.\t+\t.\tgene_id "WALG";')
             call(wn, {"op": "update", "h": "old", "data": {"form": "string", "text": wline + "\n"},
                       "kw": {"merge_strategy": "create_unique", "make_backup": False, "disable_infer_genes": True, "disable_infer_transcripts": True}})
-            wn.kill()
+            if case.get("wal_force_first", True):
+                wn.kill()
+            else:
+                # the writer stays alive and connected: its write-ahead log is live, part of the old database's content
+                holder = wn
+                probes["old_database_in_wal_mode_with_live_writer"] = 1
             if os.path.exists(path + "-wal"):
                 probes["old_database_in_wal_mode_with_wal_file_left"] = 1
             if case.get("wal_force_first", True) and os.path.exists(path + "-wal"):
@@ -405,6 +418,12 @@ def run(case):
                     n = w.node()
                 else:
                     call(n, {"op": "gc"})
+            if holder is not None:
+                holder.close()  # orderly: checkpoints its log
+                holder = None
+                if logical(raw_dump(path)) != l0:
+                    V.append(viol("C19.force", "the old database lost content once its WAL-mode writer closed, after a refused create_db",
+                                  kind="clobbered", wal=True))
             if not case["same_node"] and n.alive:
                 n.close()
                 n = w.node()
